@@ -6,6 +6,7 @@ import (
 	"bufio"
 	"context"
 	"crypto/tls"
+	"encoding/base64"
 	"encoding/json"
 	"errors"
 	"fmt"
@@ -262,12 +263,24 @@ func (c *SCase) Coq() string {
 
 // ---- node / credential tokens ----
 
-func clientNode(n int) string { return fmt.Sprintf("u%d@verif.test/i%d", n, n) }
+// identity tokens of 50 or more stand for names that are UUIDs
+func clientNode(n int) string {
+	if n >= 50 {
+		return fmt.Sprintf("00000000-0000-4000-8000-%012d@verif.test/i%d", n, n)
+	}
+	return fmt.Sprintf("u%d@verif.test/i%d", n, n)
+}
 func regNode(n int) lime.Node {
 	return lime.Node{Identity: lime.Identity{Name: fmt.Sprintf("r%d", n), Domain: "verif.test"}, Instance: "x"}
 }
 func tokenOfName(name string) int {
 	if len(name) < 2 {
+		return 9999
+	}
+	if strings.HasPrefix(name, "00000000-0000-4000-8000-") {
+		if n, err := strconv.Atoi(strings.TrimLeft(name[24:], "0")); err == nil {
+			return n
+		}
 		return 9999
 	}
 	n, err := strconv.Atoi(name[1:])
@@ -280,6 +293,14 @@ func tokenOfName(name string) int {
 func credOf(a lime.Authentication) (string, *int) {
 	tok := func(s string) *int {
 		n := 9999
+		if strings.HasPrefix(s, "%%%") { // the stand-in for text that is not base64
+			if v, err := strconv.Atoi(s[3:]); err == nil {
+				return &v
+			}
+		}
+		if b, err := base64.StdEncoding.DecodeString(s); err == nil && strings.HasPrefix(string(b), "c") {
+			s = string(b)
+		}
 		if strings.HasPrefix(s, "c") {
 			if v, err := strconv.Atoi(s[1:]); err == nil {
 				n = v
@@ -349,6 +370,7 @@ type scriptServer struct {
 	cur   lime.Transport // transport of the connection being scripted
 	sid   string
 	runs  int
+	b64   bool // secrets travel base64-encoded (servers built by a ServerBuilder decode them)
 }
 
 // decoy makes the same Server (same configuration object) serve a connection over a transport with other
@@ -399,8 +421,31 @@ func (s *scriptServer) encNow() string {
 }
 
 func newScriptServer(conf *SConf, oracle *SOracle) *scriptServer {
+	return newScriptServerWith(conf, oracle, nil)
+}
+
+// newScriptServerWith: when built is given, the Server runs with a copy of that configuration (option lists and
+// Authenticate as a ServerBuilder left them; Authenticate is wrapped so that its invocations are recorded).
+func newScriptServerWith(conf *SConf, oracle *SOracle, built *lime.ServerConfig) *scriptServer {
 	s := &scriptServer{conf: conf, oracle: oracle, l: newMemTransportListener(), done: make(chan error, 1), round: map[string]int{}}
 	cfg := lime.NewServerConfig()
+	if built != nil {
+		c := *built
+		cfg = &c
+		s.b64 = true
+		orig := built.Authenticate
+		cfg.Authenticate = func(ctx context.Context, id lime.Identity, a lime.Authentication) (*lime.AuthenticationResult, error) {
+			scheme, cred := credOf(a)
+			s.mu.Lock()
+			s.round["cur"] = s.round["auth"]
+			s.round["auth"]++
+			s.mu.Unlock()
+			s.record(SCall{Kind: "auth", From: tokenOfName(id.Name), Scheme: scheme, Cred: cred, Enc: s.encNow()})
+			return orig(ctx, id, a)
+		}
+		s.finishConfig(cfg, oracle)
+		return s
+	}
 	cfg.Node = serverNode
 	cfg.CompOpts = []lime.SessionCompression{}
 	for _, x := range conf.Comp {
@@ -446,6 +491,15 @@ func newScriptServer(conf *SConf, oracle *SOracle) *scriptServer {
 		}
 		return lime.UnknownAuthenticationResult(), nil
 	}
+	s.finishConfig(cfg, oracle)
+	return s
+}
+
+// finishConfig installs the recording Register / Established / Finished callbacks and handlers and starts the Server.
+func (s *scriptServer) finishConfig(cfg *lime.ServerConfig, oracle *SOracle) {
+	cfg.Node = serverNode
+	cfg.ChannelBufferSize = 4
+	cfg.Backlog = 4
 	cfg.Register = func(ctx context.Context, n lime.Node, c *lime.ServerChannel) (lime.Node, error) {
 		from := tokenOfName(n.Name)
 		s.record(SCall{Kind: "reg", From: from, Enc: string(c.VerifTransport().Encryption())})
@@ -483,7 +537,6 @@ func newScriptServer(conf *SConf, oracle *SOracle) *scriptServer {
 	go func() { s.done <- s.srv.ListenAndServe() }()
 	// let the consumer goroutine reach its select before anything else happens
 	time.Sleep(3 * time.Millisecond)
-	return s
 }
 
 func (s *scriptServer) Close() {
@@ -519,6 +572,7 @@ type rawClient struct {
 	upgrade bool
 	tlsOK   bool
 	readerW func() bool
+	b64     bool
 }
 
 func (c *rawClient) readLoop(start net.Conn) {
@@ -670,6 +724,13 @@ func (c *rawClient) line(in CIn) []byte {
 	}
 	if s.Cred != nil {
 		cred := fmt.Sprintf("c%d", *s.Cred)
+		if c.b64 && s.Scheme != "external" {
+			if *s.Cred >= 1000 {
+				cred = fmt.Sprintf("%%%%%%%d", *s.Cred)
+			} else {
+				cred = base64.StdEncoding.EncodeToString([]byte(cred))
+			}
+		}
 		switch s.Scheme {
 		case "plain":
 			m["authentication"] = map[string]string{"password": cred}
@@ -706,7 +767,7 @@ func (s *scriptServer) run(script []CIn) *SObs {
 	s.round = map[string]int{}
 	s.cur = st
 	s.mu.Unlock()
-	cl := &rawClient{mem: cmem, conn: cmem, under: "none", tlsOK: s.conf.TLSOk}
+	cl := &rawClient{mem: cmem, conn: cmem, under: "none", tlsOK: s.conf.TLSOk, b64: s.b64}
 	go cl.readLoop(cmem)
 	s.l.ch <- st
 
